@@ -193,6 +193,8 @@ type Interp struct {
 	// field-based mod set (havoc) and reported to the plug-in through OnSkip.
 	Relevant     map[*ssa.Function]bool
 	OnSkip       func(in *Interp, fs *FState, site ssa.Instruction, callee *ssa.Function)
+	// trackedBool: plain boolean symbols a plug-in wants branch facts for
+	trackedBool map[int]bool
 	// taint: symbols whose value derives from a plug-in chosen source (e.g. File.metaActive)
 	taint map[int]bool
 	// OnLearnNil lets a plug-in move knowledge about an error symbol into its property state
@@ -483,7 +485,8 @@ func (in *Interp) storeCell(st *State, c *Cell, v Value) {
 					in.storeCell(st, k, z)
 				}
 			default:
-				in.storeCell(st, k, Top{})
+				// unknown struct value: pointer fields to repository structs point at the (weak) singleton
+				in.storeCell(st, k, in.unknown(s.Field(i).Type()))
 			}
 		}
 		return
@@ -624,7 +627,7 @@ func (in *Interp) learnBool(s *State, sym int, val bool) {
 	if sym == 0 {
 		return
 	}
-	if _, ok := in.symRel[sym]; !ok {
+	if _, ok := in.symRel[sym]; !ok && !in.trackedBool[sym] {
 		return // plain unknown booleans are not tracked (keeps the number of disjuncts small)
 	}
 	s.boolF[sym] = val
@@ -720,6 +723,15 @@ func symOf(v Value) int {
 	return 0
 }
 
+func (in *Interp) TrackBool(v Value) {
+	if s := symOf(v); s != 0 {
+		if in.trackedBool == nil {
+			in.trackedBool = map[int]bool{}
+		}
+		in.trackedBool[s] = true
+	}
+}
+
 func (in *Interp) Taint(v Value) {
 	if s := symOf(v); s != 0 {
 		if in.taint == nil {
@@ -811,6 +823,14 @@ func (in *Interp) step(fs *FState, instr ssa.Instruction) []*FState {
 			if fs.st.nilness(p) == 1 {
 				fs.st.dead = true
 				break
+			}
+			// unknown pointer of a known repository struct type: the (weak) singleton of that type
+			if pt, ok := x.X.Type().Underlying().(*types.Pointer); ok {
+				if n, ok := pt.Elem().(*types.Named); ok && in.isRepoStruct(n) {
+					f := structFieldOf(x.X.Type(), x.Field)
+					fs.env[x] = PtrV{cell: in.kid(in.singleton(n), f.Name(), f.Type()), weak: true}
+					break
+				}
 			}
 			fs.env[x] = in.nonNil()
 		}
@@ -1216,6 +1236,11 @@ func (in *Interp) key(fn *ssa.Function, f *FState, coarse bool) string {
 	for _, v := range f.env {
 		collectSyms(v, live)
 	}
+	if ls, ok := f.st.prop.(interface{ LiveSyms() []int }); ok {
+		for _, s := range ls.LiveSyms() {
+			live[s] = true
+		}
+	}
 	var parts []string
 	for k, v := range f.st.nilF {
 		if live[k] {
@@ -1290,7 +1315,7 @@ func (in *Interp) interpFunc(fn *ssa.Function, args []Value, binds []Value, st *
 	visits := map[int]int{}
 	var exits []Exit
 	exitSeen := map[string]int{}
-	const coarseAfter = 10
+	const coarseAfter = 40
 
 	addTo := func(b *ssa.BasicBlock, from *ssa.BasicBlock, f *FState) {
 		// phis
@@ -1355,9 +1380,19 @@ func (in *Interp) interpFunc(fn *ssa.Function, args []Value, binds []Value, st *
 		work = work[1:]
 		inWork[bi] = false
 		visits[bi]++
-		if visits[bi] > 80 {
+		if visits[bi] > 160 {
 			if in.failed == "" {
 				in.failed = "block visit limit in " + fn.String()
+				if os.Getenv("TXLINT_DEBUG") != "" {
+					fmt.Printf("DEBUG visit limit block %d of %s: %d disjuncts\n", bi, fn.String(), len(ins[bi]))
+					n := 0
+					for k := range ins[bi] {
+						if n < 12 {
+							fmt.Println("   key:", k)
+						}
+						n++
+					}
+				}
 			}
 			continue
 		}
@@ -1417,6 +1452,11 @@ func (in *Interp) interpFunc(fn *ssa.Function, args []Value, binds []Value, st *
 					}
 					live := map[int]bool{}
 					collectSyms(ret, live)
+					if ls, ok := f.st.prop.(interface{ LiveSyms() []int }); ok {
+						for _, s := range ls.LiveSyms() {
+							live[s] = true
+						}
+					}
 					var parts []string
 					for k, v := range f.st.nilF {
 						if live[k] {
